@@ -72,7 +72,8 @@ func (*c07) CoqImport() string {
 }
 
 func (*c07) Rule() string {
-	return "scenario (install 30%, upgrade adding resources 10%, retried upgrade after one that failed before creating them 10%, upgrade adding resources whose NAME a resource of another kind in the release already has 10%, install --replace after uninstall --keep-history 20%, rollback re-creating dropped resources 20%) x " +
+	return "scenario (install 30%, upgrade adding resources 10%, retried upgrade after one that failed before creating them 10%, upgrade adding resources whose NAME a resource of another kind in the release already has 5%, upgrade adding in a second namespace resources whose KIND AND NAME the release already has in its own namespace 5%, install --replace after uninstall --keep-history 20%, rollback re-creating dropped resources 20%) x " +
+		"45%: templates that render ownership metadata of their own (right / wrong label / stale from another release / empty / partial / wrong case, plus a label and an annotation that must survive), also on the updated resource of an upgrade; 20%: some new resources in a second namespace and same-named objects of another release in a third; every case: up to 2 objects stamped directly by setMetadataVisitor with and without force x " +
 		"1-4 new resources (ConfigMap/Secret/ServiceAccount) each with a pre-existing object in one of six placements (absent, foreign, other release, other namespace, " +
 		"partially labelled in 5 variants, correctly owned) x take-ownership on/off x random atomic/cleanup/no-hooks flags, charts with hooks, bystander objects " +
 		"(unlabelled, owned by another release, and labelled as this release's but in no manifest); 15% of the install/upgrade cases and 60 corpus cases reject (403) the ownership GET of one new resource; quick tier enumerates all 6^2 placements of 2 resources for " +
